@@ -3,10 +3,10 @@
 P=$1; shift
 cd /repo || exit 2
 git diff --quiet || { echo "/repo not clean"; exit 2; }
-git apply --3way "$P" 2>/dev/null || git apply "$P" || { echo "patch does not apply"; exit 2; }
+git apply "$P" 2>/dev/null || git apply --3way "$P" 2>/dev/null || { echo "patch does not apply"; git reset -q --hard HEAD; exit 2; }
 git reset -q
 for c in "$@"; do
   echo "== $c with $(basename $(dirname $P))"
   (cd /verif && ./vf check $c --tier quick 2>&1 | grep -E "VIOLATION|KNOWN|TOOL-ERROR|quick:" | cut -c1-260 | head -6)
 done
-cd /repo && git checkout -q -- . && git status --short | head -3
+cd /repo && git reset -q --hard HEAD && git status --short | head -3
